@@ -63,7 +63,7 @@ class RustNestingAnalyzer(RustBaseAnalyzer):
                 max_depth = current_depth
                 max_depth_line = node.start_point[0] + 1
 
-            new_depth = current_depth + 1 if node.type in self.NESTING_NODE_TYPES else current_depth
+            new_depth = current_depth + 1 if self._increases_depth(node) else current_depth
 
             for child in node.children:
                 visit_node(child, new_depth)
@@ -73,6 +73,16 @@ class RustNestingAnalyzer(RustBaseAnalyzer):
             visit_node(child, 1)
 
         return max_depth, max_depth_line
+
+    def _increases_depth(self, node: Any) -> bool:
+        """Check if node opens a new nesting level (an else-if continues its chain, like elif)."""
+        if node.type not in self.NESTING_NODE_TYPES:
+            return False
+        parent = node.parent
+        is_else_if = (
+            node.type == "if_expression" and parent is not None and parent.type == "else_clause"
+        )
+        return not is_else_if
 
     def find_all_functions(self, root_node: Any) -> list[tuple[Any, str]]:
         """Find all function definitions in Rust AST.
